@@ -334,6 +334,35 @@ pub fn run(tier: &str) -> i32 {
                     }
                 }
             }
+            // the slice-iterator helper, one slice and several (the trailer is checked whichever slice it arrives in)
+            if !big {
+                let mut outb = vec![0u8; *olen + 1];
+                for k in [usize::MAX, 1, 3, n / 2 + 1, n.saturating_sub(2).max(1)] {
+                    acc.0 += 2;
+                    let k = k.min(d.len());
+                    let r = guarded(|| {
+                        let a = miniz_oxide::inflate::decompress_slice_iter_to_slice(&mut outb, d.chunks(k), true, false);
+                        let b = miniz_oxide::inflate::decompress_slice_iter_to_slice(&mut outb, d.chunks(k), true, true);
+                        (a, b)
+                    });
+                    let rp = json!({"kind": "trailer-slice-iter", "stream_hex": hex(d), "desc": s.desc, "good": good, "slice": k, "olen": olen});
+                    match r {
+                        Err(p) => rep.violation("C09/trailer/panic", format!("panic {}", p), rp),
+                        Ok((a, b)) => {
+                            if *good {
+                                if a != Ok(s.plain.len()) {
+                                    rep.violation("C09/slice-iter/correct-rejected", format!("decompress_slice_iter_to_slice({}-byte slices) on a correct stream: {:?} [{}]", k, a.map_err(status_name), s.desc), rp.clone());
+                                }
+                            } else if a != Err(TINFLStatus::Adler32Mismatch) {
+                                rep.violation("C09/slice-iter/wrong-trailer-not-mismatch", format!("decompress_slice_iter_to_slice({}-byte slices) on a corrupted stream: {:?} instead of Adler32Mismatch [{}]", k, a.map_err(status_name), s.desc), rp.clone());
+                            }
+                            if b.is_err() {
+                                rep.violation("C09/slice-iter/ignore-flag", format!("decompress_slice_iter_to_slice with ignore_adler32: {:?} [{}]", b.map_err(status_name), s.desc), rp);
+                            }
+                        }
+                    }
+                }
+            }
             // streaming wrapper: MZError::Data / StreamEnd, and ZLibIgnoreChecksum
             for (chunk, room) in [(usize::MAX, usize::MAX), (1usize, 7usize)] {
                 if big && chunk == 1 {
@@ -433,6 +462,14 @@ pub fn replay(v: &Value) -> Option<String> {
                 return Some(format!("ignore flag: {}", status_name(ri.status)));
             }
             None
+        }
+        "trailer-slice-iter" => {
+            let d = unhex(v["stream_hex"].as_str()?);
+            let good = v["good"].as_bool()?;
+            let k = v["slice"].as_u64()? as usize;
+            let mut outb = vec![0u8; v["olen"].as_u64()? as usize + 1];
+            let a = miniz_oxide::inflate::decompress_slice_iter_to_slice(&mut outb, d.chunks(k), true, false);
+            if good == a.is_ok() && (good || a == Err(TINFLStatus::Adler32Mismatch)) { None } else { Some(format!("slice-iter: {:?}", a.map_err(status_name))) }
         }
         "trailer-inflate" => {
             let d = unhex(v["stream_hex"].as_str()?);
